@@ -199,6 +199,9 @@ type c15Run struct {
 	dumps   []c15Dump
 	wire    int
 	mask    hotline.AccessBitmap // the privilege bits that exist (survive the YAML form); undefined bits are C16's subject
+	viaWire bool                 // wave d: every request is serialised and parsed back by the real Transaction.Write (the connection loop's parser) before the handler sees it
+	big     bool                 // wave d: requests carry large fields (4000 .. 60000 bytes) in every position and order
+	budget  int                  // bytes left in the current request (a request must fit the connection scanner's 64 KiB token)
 }
 
 // access draws a privilege field restricted to the defined bits.
@@ -208,6 +211,9 @@ func (h *c15Run) access(r *RNG) []byte {
 		if i < 8 {
 			b[i] &= h.mask[i]
 		}
+	}
+	if h.big && len(b) >= 8 && r.Chance(12) { // the handlers copy the first 8 bytes; the rest of an oversized field is ignored
+		b = append(b[:8:8], c15BigBytes(r, r.Pick(4084, 4088, 5000))...)
 	}
 	return b
 }
